@@ -15,6 +15,7 @@ import (
 	"flag"
 	"fmt"
 	"net/http"
+	"net/url"
 	"os"
 	"path/filepath"
 	"strings"
@@ -287,6 +288,7 @@ type eobs struct {
 
 type rig struct {
 	O          *g01rig.Origin
+	P          *g01rig.Origin // scripted upstream HTTP proxy (records what a real upstream proxy would receive)
 	A, B       *g01rig.Proxy
 	tagA, tagB string
 }
@@ -327,7 +329,21 @@ func newRig(sameName bool, nameA string) (*rig, error) {
 	if !sameName {
 		nameB = nameA + "-b"
 	}
-	a, err := g01rig.StartProxy(nameA, nil)
+	pr, err := g01rig.NewOrigin()
+	if err != nil {
+		return nil, err
+	}
+	pr.Respond = func(r *g01rig.RawRequest) []byte {
+		if r.Method == "CONNECT" {
+			return []byte("HTTP/1.1 200 OK\r\n\r\n") // then the same peer plays the tunnelled target
+		}
+		if r.Method == "HEAD" {
+			return []byte("HTTP/1.1 200 OK\r\nContent-Length: 2\r\n\r\n")
+		}
+		return []byte("HTTP/1.1 200 OK\r\nContent-Length: 2\r\n\r\nok")
+	}
+	// A is wired like the forwarder binary (Transport.GetProxyConnectHeader always set), B like a plain library user
+	a, err := g01rig.StartProxyOpts(nameA, g01rig.ProxyOpts{ConnectHeaderCallback: true})
 	if err != nil {
 		return nil, err
 	}
@@ -335,7 +351,7 @@ func newRig(sameName bool, nameA string) (*rig, error) {
 	if err != nil {
 		return nil, err
 	}
-	rg := &rig{O: o, A: a, B: bp}
+	rg := &rig{O: o, P: pr, A: a, B: bp}
 	if rg.tagA, err = learnTag(o, a); err != nil {
 		return nil, err
 	}
@@ -349,6 +365,7 @@ func (rg *rig) stop() {
 	rg.A.Stop()
 	rg.B.Stop()
 	rg.O.Close()
+	rg.P.Close()
 }
 
 func (rg *rig) run(c ecaseJSON) eobs {
@@ -363,10 +380,18 @@ func (rg *rig) run(c ecaseJSON) eobs {
 	case "ABA":
 		rg.A.SetUpstream(rg.B.URL())
 		rg.B.SetUpstream(rg.A.URL())
+	case "AP":
+		rg.A.SetUpstream(&url.URL{Scheme: "http", Host: rg.P.Addr()})
+	}
+	sink := rg.O // the peer at the end of the route
+	if c.Route == "AP" {
+		sink = rg.P
 	}
 	rg.A.LoopGuard.Store(rg.A.Passed.Load() + 8)
 	rg.B.LoopGuard.Store(rg.B.Passed.Load() + 8)
-	conns0, n0 := rg.O.Snapshot()
+	rg.A.RouteGuard.Store(rg.A.Routed.Load() + 8)
+	rg.B.RouteGuard.Store(rg.B.Routed.Load() + 8)
+	conns0, n0 := sink.Snapshot()
 	ob := eobs{TagA: rg.tagA, TagB: rg.tagB}
 	cl, err := g01rig.Dial(rg.A.Addr)
 	if err != nil {
@@ -405,8 +430,8 @@ func (rg *rig) run(c ecaseJSON) eobs {
 			ob.Err = fmt.Sprintf("tunnel: origin answered %d", ires.Status)
 		}
 	}
-	conns1, _ := rg.O.Snapshot()
-	reqs := rg.O.Since(n0)
+	conns1, _ := sink.Snapshot()
+	reqs := sink.Since(n0)
 	ob.Contacts = len(reqs)
 	ob.NewConns = conns1 - conns0
 	if len(reqs) > 0 {
@@ -421,7 +446,7 @@ func (rg *rig) route(c ecaseJSON) []hopJSON {
 		min = 0
 	}
 	var hops []hopJSON
-	for i, ch := range c.Route {
+	for i, ch := range strings.TrimSuffix(c.Route, "P") {
 		h := hopJSON{Proxy: string(ch), Maj: 1, Min: 1} // net/http's Transport always speaks HTTP/1.1 to the next hop
 		if i == 0 {
 			h.Maj, h.Min = maj, min
@@ -434,11 +459,11 @@ func (rg *rig) route(c ecaseJSON) []hopJSON {
 func coqEcase(rg *rig, c ecaseJSON, o eobs) string {
 	var hops []string
 	for _, h := range rg.route(c) {
-		tag := o.TagA
+		tag, inst := o.TagA, 1
 		if h.Proxy == "B" {
-			tag = o.TagB
+			tag, inst = o.TagB, 2
 		}
-		hops = append(hops, fmt.Sprintf("{| hp_tag := %s; hp_maj := %d; hp_min := %d |}", coqfmt.Str(tag), h.Maj, h.Min))
+		hops = append(hops, fmt.Sprintf("{| hp_inst := %d; hp_tag := %s; hp_maj := %d; hp_min := %d |}", inst, coqfmt.Str(tag), h.Maj, h.Min))
 	}
 	contacts := o.Contacts
 	if o.NewConns > contacts {
@@ -448,13 +473,13 @@ func coqEcase(rg *rig, c ecaseJSON, o eobs) string {
 		contacts = 1 // one tunnel = one contact (connection + the request sent through it)
 	}
 	return fmt.Sprintf("{| e_route := %s; e_client_via := %s; e_nominated := %s; e_connect := %s; e_status := %d; e_origin_contacts := %d; e_origin_via := %s |}",
-		coqfmt.List("hop", hops), coqfmt.StrList(c.ClientVia), coqfmt.Bool(c.Nominate), coqfmt.Bool(c.Method == "CONNECT"),
+		coqfmt.List("hop", hops), coqfmt.StrList(c.ClientVia), coqfmt.Bool(c.Nominate), coqfmt.Bool(c.Method == "CONNECT" && c.Route != "AP"),
 		o.Status, contacts, coqfmt.StrList(o.SeenVia))
 }
 
 func genEcase(r *rng.R, rg *rig, sameName bool) ecaseJSON {
 	c := ecaseJSON{SameName: sameName, Proto: "HTTP/1.1", Method: "GET"}
-	c.Route = []string{"A", "A", "AA", "AB", "ABA"}[r.Intn(5)]
+	c.Route = []string{"A", "A", "AA", "AB", "ABA", "AP"}[r.Intn(6)]
 	if r.Chance(1, 4) {
 		c.Proto = "HTTP/1.0"
 	}
@@ -486,6 +511,29 @@ func genEcase(r *rng.R, rg *rig, sameName bool) ecaseJSON {
 }
 
 // ---------------------------------------------------------------- output
+
+// stackTags builds n stacks (even indices: httpspec.NewStack, odd: header.NewViaModifier) and returns the tag of each.
+func stackTags(name string, n int) []string {
+	var tags []string
+	for i := 0; i < n; i++ {
+		var m mheader.RequestModifier
+		if i%2 == 0 {
+			m, _ = mheader.NewStack(name)
+		} else {
+			m = mheader.NewViaModifier(name)
+		}
+		req, err := http.NewRequest(http.MethodGet, "http://example.com/", http.NoBody)
+		if err != nil {
+			panic(err)
+		}
+		req.RemoteAddr = "10.0.0.1:1234"
+		if err := m.ModifyRequest(req); err != nil {
+			panic(err)
+		}
+		tags = append(tags, strings.TrimPrefix(req.Header.Get("Via"), "1.1 "))
+	}
+	return tags
+}
 
 func writeShard(dir, kind string, idx int, typ, modelF, propF string, cases []string, extra string) error {
 	var sb strings.Builder
@@ -520,6 +568,7 @@ type meta struct {
 	ModEmbeds      int            `json:"modifier_tag_text_embedded"`
 	LineHist       map[string]int `json:"via_field_lines_hist"`
 	ProtoExhaust   int            `json:"proto_versions_exhaustive"`
+	StackTags      int            `json:"stack_tags_observed"`
 	E2ECases       int            `json:"e2e_cases"`
 	E2ERoutes      map[string]int `json:"e2e_routes"`
 	E2EStatus      map[string]int `json:"e2e_status"`
@@ -556,7 +605,19 @@ func main() {
 		if err := json.Unmarshal(data, &rp); err != nil {
 			panic(err)
 		}
-		if rp.Kind == "modifier" {
+		if rp.Kind == "stacks" {
+			var st struct {
+				Name string `json:"name"`
+				N    int    `json:"n"`
+			}
+			json.Unmarshal(data, &st)
+			tags := stackTags(st.Name, st.N)
+			writeShard(*out, "ucases", 0, "ucase", "ucase_model_ok", "ucase_prop_ok",
+				[]string{fmt.Sprintf("{| u_name := %s; u_tags := %s |}", coqfmt.Str(st.Name), coqfmt.StrList(tags))}, noB)
+			writeJSONL(*out, "ucases.jsonl", []any{map[string]any{"kind": "stacks", "name": st.Name, "n": st.N, "_obs": map[string]any{"tags": tags[:min(4, len(tags))]}}})
+			m.Shards = []string{"ucases_000.v"}
+			fmt.Printf("replay stacks: %d stacks named %q, first tags %q\n", st.N, st.Name, tags[:min(4, len(tags))])
+		} else if rp.Kind == "modifier" {
 			o := runModifier(rp.vcaseJSON)
 			writeShard(*out, "vcases", 0, "vcase", "vcase_model_ok", "vcase_prop_ok", []string{coqVcase(rp.vcaseJSON, o)}, noB)
 			writeJSONL(*out, "vcases.jsonl", []any{vrec{rp.vcaseJSON, o}})
@@ -627,6 +688,24 @@ func main() {
 	writeJSONL(*out, "vcases.jsonl", vj)
 	m.Samples = append(m.Samples, vj[len(vj)-1], vj[len(vj)/2])
 
+	// ---- 1b. instance identity: construct the real stack repeatedly (httpspec.NewStack through the re-export,
+	// and header.NewViaModifier), read the tag each instance emits
+	var uc []string
+	var uj []any
+	nStacks := 64
+	if *tier == "thorough" {
+		nStacks = 1024
+	}
+	for _, name := range namePool[:4] {
+		tags := stackTags(name, nStacks)
+		m.StackTags += len(tags)
+		uc = append(uc, fmt.Sprintf("{| u_name := %s; u_tags := %s |}", coqfmt.Str(name), coqfmt.StrList(tags)))
+		uj = append(uj, map[string]any{"kind": "stacks", "name": name, "n": nStacks, "_obs": map[string]any{"tags": tags[:4]}})
+	}
+	writeShard(*out, "ucases", 0, "ucase", "ucase_model_ok", "ucase_prop_ok", uc, noB)
+	m.Shards = append(m.Shards, "ucases_000.v")
+	writeJSONL(*out, "ucases.jsonl", uj)
+
 	// ---- 2. end to end
 	var ec []string
 	var ej []any
@@ -647,8 +726,10 @@ func main() {
 			)
 		}
 		cases = append(cases, ecaseJSON{Route: "AB", SameName: same, Proto: "HTTP/1.1", Method: "GET", ClientVia: []string{"1.1 alpha", "1.1 " + rg.tagB}, OwnOf: "B"})
-		for _, route := range []string{"A", "AA", "AB", "ABA"} {
+		for _, route := range []string{"A", "AA", "AB", "ABA", "AP"} {
 			cases = append(cases,
+				ecaseJSON{Route: route, SameName: same, Proto: "HTTP/1.1", Method: "GET", ClientVia: []string{"1.0 alpha"}},
+				ecaseJSON{Route: route, SameName: same, Proto: "HTTP/1.1", Method: "CONNECT", ClientVia: []string{"1.0 alpha", "1.1 beta"}},
 				ecaseJSON{Route: route, SameName: same, Proto: "HTTP/1.1", Method: "CONNECT"},
 				ecaseJSON{Route: route, SameName: same, Proto: "HTTP/1.1", Method: "CONNECT", ClientVia: []string{"1.1 alpha", "1.1 " + rg.tagA}, OwnOf: "A"},
 			)
@@ -672,6 +753,7 @@ func main() {
 			ej = append(ej, erec{untag(c, rg), o})
 		}
 		m.OriginParseErr = append(m.OriginParseErr, rg.O.Errors()...)
+		m.OriginParseErr = append(m.OriginParseErr, rg.P.Errors()...)
 		rg.stop()
 	}
 	m.E2ECases = len(ec)
